@@ -13,7 +13,14 @@ import (
 	"time"
 )
 
-const repoDir = "/repo"
+// repoDir: the tree under test. VERIF_REPO is a development aid only (evaluating a scratch
+// worktree while /repo is busy); every registered command uses /repo.
+var repoDir = func() string {
+	if v := os.Getenv("VERIF_REPO"); v != "" {
+		return v
+	}
+	return "/repo"
+}()
 
 var verifDir = func() string {
 	if v := os.Getenv("VERIF_DIR"); v != "" {
